@@ -142,6 +142,11 @@ def find_guard(f, pred, exc=None, before_line=None, dominate_returns=False):
                 g = scan(s.body)
                 if g is not None:
                     return g
+            # `if <c>: v = <replacement> elif <guard>: raise`: the branch that skips the guard only re-binds a variable
+            if isinstance(s, ast.If) and s.orelse and all(isinstance(b, ast.Assign) and all(isinstance(t, ast.Name) for t in b.targets) for b in s.body):
+                g = scan(s.orelse)
+                if g is not None:
+                    return g
         return None
     return scan(body_wo_doc(f))
 
@@ -219,7 +224,7 @@ def pos_if(node):
         return t, body, orelse
 
 
-def simple_aliases(f):
+def simple_aliases(f, with_tests=False):
     """Single-assignment locals that only name something else: `x = self.a.b`, `n = len(self)`.  name -> rhs node."""
     cnt, rhs = {}, {}
     for x in ast.walk(f.node):
@@ -244,7 +249,20 @@ def simple_aliases(f):
         if isinstance(e, ast.Call) and isinstance(e.func, ast.Name) and e.func.id == 'len' and len(e.args) == 1 and not e.keywords:
             return pure(e.args[0])
         return False
-    return {n: v for n, v in rhs.items() if cnt.get(n) == 1 and n not in params and pure(v) and not isinstance(v, ast.Name)}
+    def pure_test(e):
+        if pure(e) or isinstance(e, ast.Constant):
+            return True
+        if isinstance(e, ast.Compare):
+            return pure_test(e.left) and all(pure_test(c) for c in e.comparators)
+        if isinstance(e, ast.BinOp):
+            return pure_test(e.left) and pure_test(e.right)
+        if isinstance(e, ast.BoolOp):
+            return all(pure_test(v) for v in e.values)
+        if isinstance(e, ast.UnaryOp):
+            return pure_test(e.operand)
+        return False
+    ok = pure_test if with_tests else pure
+    return {n: v for n, v in rhs.items() if cnt.get(n) == 1 and n not in params and ok(v) and not isinstance(v, (ast.Name, ast.Constant))}
 
 
 def expand(f, node, aliases=None):
